@@ -14,7 +14,7 @@ CFG = """SPECIFICATION Spec
 CONSTANTS
   Slots = {%s}
   ConstOps = {%s}
-  SetForms = {"cstr", "buflv", "bufrv", "std", "wide"}
+  SetForms = {"cstr", "buflv", "bufrv", "std", "wide", "tobuffer", "extract"}
   EmitEdges = TRUE
   WithFaults = %s
   WithThrows = TRUE
